@@ -8,9 +8,11 @@ from __future__ import annotations
 
 from typing import Any, Dict, List, Optional, Tuple
 
-# MySQL errors after which the Lean model (which has no such failure) and the code legitimately diverge: 1242 = is_job_cancelled
-# returning one row per cancelled ancestor (known finding of C07 / C39)
-DIVERGENT_SQL_ERRORS = {1242}
+# MySQL errors after which the Lean model (which has no such failure) and the code legitimately diverge, so that a history ends there
+# instead of reporting a correspondence mismatch.  Empty since repo commit 2813d614a: the only member was 1242 = is_job_cancelled (119)
+# returning one row per cancelled ancestor; a 1242 is now a plain disagreement with the model in every E1 check (and C07's oracle (5)
+# reports the failing request)
+DIVERGENT_SQL_ERRORS: set = set()
 
 TERMINAL = ('Success', 'Failed', 'Error', 'Cancelled')
 LIVE = ('Pending', 'Ready', 'Creating', 'Running')
